@@ -223,7 +223,7 @@ func expectedOutcome(f *Finding) string {
 		return "panic"
 	case "assert":
 		return "assert-fail:" + f.Label
-	case "loop":
+	case "loop", "work":
 		return "no-result" // must not finish within the time limit (or die of memory exhaustion)
 	case "alloc":
 		return "alloc"
@@ -408,7 +408,7 @@ func cmdCheck(args []string) int {
 		for pkg, idxs := range byPkg {
 			var fast, slow []int
 			for _, i := range idxs {
-				if allFindings[i].Kind == "loop" || allFindings[i].Kind == "alloc" {
+				if allFindings[i].Kind == "loop" || allFindings[i].Kind == "alloc" || allFindings[i].Kind == "work" {
 					slow = append(slow, i)
 				} else {
 					fast = append(fast, i)
@@ -474,7 +474,7 @@ func cmdCheck(args []string) int {
 					validated++
 				} else {
 					f.Replayed = "NOT confirmed: native outcome " + res[0].Outcome
-					if f.Kind == "loop" {
+					if f.Kind == "loop" || f.Kind == "work" {
 						// an unwinding artefact, not a violation: the bound must be raised
 						inconcl = append(inconcl, fmt.Sprintf("%s: unwinding bound reached but native run finishes (raise LoopBound)", f.Key()))
 					} else {
